@@ -104,12 +104,15 @@ def run(tier, seed):
         if r["status"] != "ok":
             chk.violation({"part": "generate", "what": "raised", "exc": r["exc"], "pattern": r["pname"]},
                           f"generate_problem raised {r['exc']} on pattern {r['pname']}", {"pname": r["pname"], "seed": r["seed"], "opts": r["opts"]})
-    path = chk.dir / "gen.ndjson"
-    write_ndjson(path, [{k: r[k] for k in ("t", "pattern", "initial", "events")} for r in ok_runs])
-    res3 = run_tlc("Trace_Gen", "Trace_Gen", workdir=chk.dir, env={"TRACE_FILE": str(path)}, timeout=3000, workers=4)
-    chk.add_tlc(res3)
+    from harness.tlc import run_tlc_chunked
+    gen_results = run_tlc_chunked("Trace_Gen", [{k: r[k] for k in ("t", "pattern", "initial", "events")} for r in ok_runs],
+                                  workdir=chk.dir, name="gen", chunk_bytes=8_000_000, parallel=4, timeout=3000, workers=4)
+    gen_verdicts = []
+    for res3 in gen_results:
+        chk.add_tlc(res3)
+        gen_verdicts += res3.records
     best = {}
-    for v in res3.records:
+    for v in gen_verdicts:
         b = best.get(v["t"])
         if b is None or (v["k"], v["why"] == "") > (b["k"], b["why"] == ""):
             best[v["t"]] = v
